@@ -1,8 +1,10 @@
 #!/usr/bin/env python3
-"""Regenerate the round-2 table of seeded changes in SENSITIVITY.md (between the R2 markers) from seeded/*-r2/meta.json."""
-import json, glob, os, re
+"""Regenerate the round-N table of seeded changes in SENSITIVITY.md (between the RN markers) from seeded/*-rN/meta.json.
+usage: tools_seedtable.py [round, default 2]"""
+import json, glob, os, re, sys
+R = sys.argv[1] if len(sys.argv) > 1 else "2"
 rows = []
-for d in sorted(glob.glob("/verif/seeded/C??-r2")):
+for d in sorted(glob.glob("/verif/seeded/C??-r%s" % R)):
     pid = os.path.basename(d)[:3]
     m = json.load(open(os.path.join(d, "meta.json")))
     hist = [h for h in m.get("check_history", []) if pid in h.get("results", {})]
@@ -14,11 +16,11 @@ for d in sorted(glob.glob("/verif/seeded/C??-r2")):
         s = re.sub(r"\s+", " ", str(s or "")).replace("|", "/")
         return s[:260] + ("..." if len(s) > 260 else "")
     extra = "".join(" (%s: %s)" % kv for kv in sorted(others.items()))
-    rows.append("| %s-r2 | %s | %s | %s | %s | %s%s |" % (pid, cell(m.get("summary")), cell(m.get("needs")), "yes" if valid else "NO", first, final, extra))
+    rows.append(("| %s-r" + R + " | %s | %s | %s | %s | %s%s |") % (pid, cell(m.get("summary")), cell(m.get("needs")), "yes" if valid else "NO", first, final, extra))
 table = "| seed | change | needs | valid | first run | final |\n|---|---|---|---|---|---|\n" + "\n".join(rows)
 p = "/verif/SENSITIVITY.md"
 s = open(p).read()
-b, e = "<!-- R2-TABLE-BEGIN -->", "<!-- R2-TABLE-END -->"
+b, e = "<!-- R%s-TABLE-BEGIN -->" % R, "<!-- R%s-TABLE-END -->" % R
 if b in s:
     s = s[:s.index(b) + len(b)] + "\n" + table + "\n" + s[s.index(e):]
     open(p, "w").write(s)
